@@ -649,7 +649,10 @@ void CombinatoryProcess::formatExpression(std::ostream &stream, size_t indentati
 
 		HCL_ASSERT(shift->getFillMode() == hlim::Node_Shift::fill::zero);
 
+		// Qualify the operand as well: a constant operand is a bare bit string literal, and SHIFT_x(literal, n) has an UNSIGNED and a SIGNED reading.
+		stream << "UNSIGNED'(";
 		formatExpression(stream, indentation, comments, shift->getDriver(hlim::Node_Shift::INPUT_OPERAND), dependentInputs, VHDLDataType::UNSIGNED);
+		stream << ")";
 		// Qualify the amount: a constant amount is printed as a bare bit string literal, for which to_integer(UNSIGNED) / to_integer(SIGNED) would be ambiguous.
 		stream << ", to_integer(UNSIGNED'(";
 		formatExpression(stream, indentation, comments, shift->getDriver(hlim::Node_Shift::INPUT_AMOUNT), dependentInputs, VHDLDataType::UNSIGNED);
